@@ -6,6 +6,20 @@ from . import c04
 PROP = "C02"
 
 
+def rule_dec_release(ctx, rep):
+    """R-ORD-1 alone (shared with C03/C08/C09: the Acquire gate only orders anything if the decrements it reads from are Release)."""
+    for tag, F, E in ctx.each():
+        for b, B, bi, t, cls, ordr in atomics.sites(F):
+            if cls != model.ATOMIC_RMW_SUB or not atomics.receiver_is_count(F, B, t):
+                continue
+            ik = "%s/decrement" % b["key"]
+            if ordr in atomics.RELEASE_OK:
+                rep.ok("R-ORD-1", ik, "decrement is %s" % ordr, cfg=tag)
+            else:
+                rep.bad("R-ORD-1", ik, "the decrement of the count word is %s; it must be Release or stronger: the Acquire load of the uniqueness test synchronises only with Release decrements, so the accesses of an owner that has since released would not happen-before the exclusive access granted on `count == 1`" % ordr, F.loc(b, t["span"]), tag)
+    rep.floor("R-ORD-1", 1, "one decrement")
+
+
 def run(ctx, rep):
     from . import c03
 
@@ -140,7 +154,7 @@ def run(ctx, rep):
                     rep.bad("R-FUNNEL", b["key"], "does not reach Arc's single %s exactly once: %s" % ("increment" if cls == "CLONE" else "decrement", msg), F.loc(b), tag)
                 else:
                     rep.ok("R-FUNNEL", b["key"], cfg=tag)
-    c03.rule_gate_def(ctx, rep)  # a thread may also become the destroyer by observing `count == 1` through the gate (try_unwrap, into_inner)
+    c03.rule_gate_def(ctx, rep, with_release=False)  # a thread may also become the destroyer by observing `count == 1` through the gate (try_unwrap, into_inner)
     balance.rule_count_addr(ctx, rep)
     rep.floor("R-COUNT-ADDR", 1, "one instance per run")
     balance.rule_use_after_release(ctx, rep)
